@@ -376,6 +376,25 @@ func (a *API) ReadSub(ctx context.Context, tok int, r io.Reader) (<-chan int, er
 	return ch, nil
 }
 
+// NotifyRevFlood is a notification whose handler subscribes to a stream of the
+// calling client and then reads nothing: whatever the client produces piles up on
+// the server side until the handler's context is cancelled.
+func (a *API) NotifyRevFlood(ctx context.Context, tok int) {
+	t := a.enter(ctx, tok)
+	defer a.leave(t)
+	rc, ok := jsonrpc.ExtractReverseClient[RevClient](ctx)
+	if !ok {
+		return
+	}
+	if _, err := rc.SubR(ctx, tok); err != nil {
+		return
+	}
+	select {
+	case <-ctx.Done():
+	case <-a.e.Done:
+	}
+}
+
 // NotifyRev is a notification whose handler calls back into the client.
 func (a *API) NotifyRev(ctx context.Context, tok int) {
 	t := a.enter(ctx, tok)
@@ -712,6 +731,7 @@ type Proxy struct {
 	ReadAll        func(ctx context.Context, tok int, r io.Reader) (string, error)
 	SubF           func(ctx context.Context, tok int) (<-chan float64, error)
 	NotifyRev      func(ctx context.Context, tok int) error `notify:"true"`
+	NotifyRevFlood func(ctx context.Context, tok int) error `notify:"true"`
 	RevSub         func(ctx context.Context, tok int) (string, error)
 	CallNoRetry    func(ctx context.Context, tok int) (string, error) `rpc_method:"T.Call" retry:"false"`
 	Slow           func(ctx context.Context, tok int) (string, error)
